@@ -121,6 +121,14 @@ def adj_of_mask(n, mask, inner):
     return rows
 
 
+def _init_worker():
+    try:
+        import torch
+        torch.set_num_threads(1)
+    except Exception:
+        pass
+
+
 def _work_scc(job):
     """job = (n, mask_lo, mask_hi, orders[(perm, names)], inners) -> (cases, distinct_nontrivial, fails)"""
     n, lo, hi, orders, inners = job
@@ -378,7 +386,7 @@ def run_bounded(ctx: Ctx) -> Report:
     ntg_chunks = [ntg_cases[i:i + csz] for i in range(0, len(ntg_cases), csz)]
 
     if ctx.jobs > 1:
-        with mp.get_context("fork").Pool(ctx.jobs) as pool:
+        with mp.get_context("fork").Pool(ctx.jobs, initializer=_init_worker) as pool:
             a1 = pool.map_async(_work_scc, jobs, chunksize=1)
             a2 = pool.map_async(_work_scc_random, rjobs, chunksize=1)
             a3 = pool.map_async(_work_ntg, ntg_chunks, chunksize=1)
